@@ -49,7 +49,9 @@ def emit_format(f, gen):
     L.append("  table := [" + ", ".join("⟨%d, %d, %d⟩" % tuple(r) for r in t["rows"]) + "]")
     fe = f.get("field_enum") or {"type": "", "enumerators": []}
     L.append("  enumType := %s" % lstr(fe["type"]))
-    L.append("  enumerators := [" + ", ".join("(%s, %d)" % (lstr(n), v) for n, v in fe["enumerators"]) + "]")
+    # a negative enumerator is emitted as the value a `uint32_t` parameter receives (the enumeration's
+    # signedness is the separate fact "unsigned:<type>" that checkC11 requires to be 1)
+    L.append("  enumerators := [" + ", ".join("(%s, %d)" % (lstr(n), v % (1 << 32)) for n, v in fe["enumerators"]) + "]")
     gs, ss, inits, legs, pas, algs, ops, algfacts, algwrites = [], [], [], [], [], [], [], [], []
     for fn in f["functions"]:
         k = fn["kind"]
